@@ -439,29 +439,40 @@ def r16_12(ctx: Ctx, rule: str = "R16.12") -> None:
 def r16_14(ctx: Ctx, rule: str = "R16.14") -> None:
     """what is left of a name after separators and a drive prefix were removed may be NOTHING ('/', 'c:'): only a directory can be stored under
     the empty name (the root); a file or link stored as '.' gives an archive that lists a file called '.' and cannot be extracted.  write()
-    refuses: a test of the sanitised name against '' whose true arm raises dominates the construction of the member's record."""
+    refuses: some `raise` stands under 'the sanitised name is empty' and 'not a directory' (in one condition or in nested ones), and the
+    outermost of those tests dominates the construction of the member's record.  A link counts as 'not a directory' only without dereference."""
     f = shared.szf(ctx, "write")
     cfg = cfg_of(f.node)
     mk = [c for c in q.calls(f) if attr_tail(c) == "_make_file_info"]
     ctx.floor(rule, len(mk), 1, "_make_file_info call in write")
+
+    def empties(a: ast.AST) -> bool:
+        return isinstance(a, ast.Compare) and isinstance(a.left, ast.Name) and a.left.id == "arcname" and any(
+            isinstance(k, ast.Constant) and k.value == "" for cmp_ in a.comparators for k in ast.walk(cmp_))
+    raises = [r for r in walk(f.node) if isinstance(r, ast.Raise)]
     for c in mk:
         cn = q.node_for(f, c)
         ok = False
-        for t in cfg.nodes:
-            if t.kind != "test" or not cfg.dominates(t, cn):
+        for r in raises:
+            rn = q.node_for(f, r)
+            guards_ = cfg.guards(rn)
+            conds = [g for g, _ in guards_]
+            whole = " and ".join(norm(g) for g, p_ in guards_ if p_)
+            has_empty = any(empties(a) and pol for a, pol in q.facts_at(f, r)) or any(empties(x) for g, p_ in guards_ if p_ for x in ast.walk(g))
+            has_kind = any(isinstance(x, ast.Call) and attr_tail(x) == "is_dir" for g in conds for x in ast.walk(g))
+            if not (has_empty and has_kind):
                 continue
-            empties = any(isinstance(x, ast.Compare) and isinstance(x.left, ast.Name) and x.left.id == "arcname" and any(
-                isinstance(k, ast.Constant) and k.value == "" for cmp_ in x.comparators for k in ast.walk(cmp_)) for x in ast.walk(t.ast))
-            kinds = any(isinstance(x, ast.Call) and attr_tail(x) == "is_dir" for x in ast.walk(t.ast))
-            raises = any(e.kind == "true" and q.branch_always_raises(cfg, e) for e in t.succ)
+            outer = [t for t in cfg.nodes if t.kind == "test" and any(t.ast is g for g in conds)]
+            if not any(cfg.dominates(t, cn) for t in outer):
+                continue
             # a link that is archived BY ITS TARGET (dereference) is the directory it leads to: the link test counts only without dereference
-            bare_link = any(isinstance(a, ast.Call) and attr_tail(a) == "is_symlink" and pol for a, pol in q.atoms(t.ast, True)) or any(
-                isinstance(x, ast.BoolOp) and isinstance(x.op, ast.Or) and any(isinstance(v, ast.Call) and attr_tail(v) == "is_symlink" for v in x.values) for x in ast.walk(t.ast))
-            ok = ok or (empties and kinds and raises and not bare_link)
-            if empties and kinds and raises and bare_link:
-                ctx.fail(rule, f, t.ast, f"`{norm(t.ast)[:110]}` refuses every symbolic link under the empty name, also with dereference=True, where the link IS the directory it "
+            bare_link = any(isinstance(x, ast.Call) and attr_tail(x) == "is_symlink" for g in conds for x in ast.walk(g)) and "dereference" not in whole
+            if bare_link:
+                ctx.fail(rule, f, r, f"`{whole[:110]}` refuses every symbolic link under the empty name, also with dereference=True, where the link IS the directory it "
                          "leads to: `SevenZipFile(..., dereference=True).writeall(<link to a directory>, arcname='')`, which stored the tree at the root of the archive, raises ValueError",
                          construct="empty name refused for a dereferenced link")
+            else:
+                ok = True
         ctx.check(ok, rule, f, c, "an empty sanitised name is accepted for a directory only",
                   "write() builds the member's record without refusing an EMPTY sanitised name for a file or link: a file called 'C:' (or a link at '/') in a tree archived with "
                   "writeall('.') is stored as the file member '.', and extractall() of that archive dies with IsADirectoryError", construct="file stored under the empty name")
